@@ -46,6 +46,10 @@ fn check_n(n: usize, rec: &mut Rec) {
         // escape hatch on a request whose only transfer-encoding is not a framing header
         rec.cov("chunked/despite-method-with-gzip");
         crate::drive::body_sender_ex(None, false, false, 2 | 1024 | (((n / 15) % 4) as u16) << 5)
+    } else if n % 15 == 14 {
+        // the head went out one line per write, the empty line alone in a write of its own
+        rec.cov("chunked/head-line-by-line");
+        crate::drive::body_sender_ex(None, false, false, 8192)
     } else if n % 15 == 11 {
         // escape hatch on a flow produced by a redirect whose original was chunked
         rec.cov("chunked/redirected-flow");
@@ -99,7 +103,10 @@ fn check_n(n: usize, rec: &mut Rec) {
         }
     }
     // length delimited: max is n itself and n bytes go through in one write
-    let mut s = match body_sender(Some(n as u64 + 7), false, false) {
+    // (the sender in turn: plain, with the Host spelled out by the caller, with the head written line by line, both)
+    let lv = [0u16, 1, 8192, 1 | 8192][n % 4];
+    rec.cov(["length/sender-plain", "length/sender-own-host", "length/sender-head-line-by-line", "length/sender-own-host-line-by-line"][n % 4]);
+    let mut s = match crate::drive::body_sender_ex(Some(n as u64 + 7), false, false, lv) {
         Ok(s) => s,
         Err(e) => return rec.fail("C18/setup", e),
     };
